@@ -14,7 +14,7 @@ PROPERTY = 'C09'
 RULE = ('A generated formula and a generated decomposition: a set of its sub-terms hoisted into named sub-specifications (dependency '
         'order, nested, every textual re-occurrence replaced by the name; sub-formula reuse is raised so multiple references are common), '
         'some literals hoisted into declare_const; delivered through add_sub_spec or as several assertions in one text, names declared or '
-        'not, each requirement text optionally laid out with line comments after / before it, block comments and line breaks; five monitor set-ups (discrete offline, online, online after pastify; dense offline, online in 1-3 chunks). Oracle '
+        'not, each requirement text optionally laid out with line comments after / before it, block comments and line breaks, the main text optionally written to a file and loaded with get_spec_from_file(); five monitor set-ups (discrete offline, online, online after pastify; dense offline, online in 1-3 chunks). Oracle '
         '(differential): outputs of the modular specification == outputs of the inlined specification on the same monitor and data. '
         'Non-trivial = >= 1 sub-specification that contains a stateful/temporal operator or is referenced >= 2 times; distinct = distinct '
         '(modular text, data, kind) digests.')
@@ -68,8 +68,8 @@ def describe(case):
     consts = list(consts) + bound_const_decl(case)
     from ..modular import decorate
     bodies = [(n, decorate(case, i, '%s = %s' % (n, t))) for i, (n, t) in enumerate(bodies)]
-    return 'kind %s, delivery %s, names declared: %s\nsub-specs (texts as written): %s\nconstants: %s\nmain: out = %s\ninlined: out = %s\ndata: %s' % (
-        case['kind'], case['delivery'], case['declare_names'], bodies, consts, main, printer_for(case['kind'])(from_json(case['formula'])),
+    return 'kind %s, delivery %s%s, names declared: %s\nsub-specs (texts as written): %s\nconstants: %s\nmain: out = %s\ninlined: out = %s\ndata: %s' % (
+        case['kind'], case['delivery'], ' (main text written to a file and loaded with get_spec_from_file)' if case.get('via_file') else '', case['declare_names'], bodies, consts, main, printer_for(case['kind'])(from_json(case['formula'])),
         case.get('trace') or case.get('signals'))
 
 
